@@ -7,7 +7,8 @@ Local Open Scope R_scope.
 Definition Rops : sops R :=
   {| s0 := 0; s1 := 1; s2 := 2; sadd := Rplus; ssub := Rminus; smul := Rmult; sdiv := Rdiv;
      sneg := Ropp; ssqrt := sqrt; scos := cos; ssin := sin;
-     sltb := fun a b => if Rlt_dec a b then true else false |}.
+     sltb := fun a b => if Rlt_dec a b then true else false;
+     sis0 := fun a => if Req_EM_T a 0 then true else false |}.
 
 Notation RC := (C (F:=R)).
 Definition cexp (x : R) : RC := (cos x, sin x).
